@@ -139,3 +139,47 @@ Definition multimerge (F : codefacts) (on_index : bool) (sufs : list str) (outer
                 else Raise TypeError                    (* pd.merge(left, right, on, how=...): two values for `how` *)
          end
   end.
+
+(* ------------------------------------------------------------------ multimerge, repeated keys *)
+(* The same join when a key may occur more than once in a table (many-to-many): the result rows of a key are the
+   product of the tables' rows for that key, a table without the key contributing one all-missing row in an outer
+   join.  pandas' order of the rows is an implementation detail: the harness compares row MULTISETS. *)
+Definition rows_of (k : str) (t : ktable) : list (list cell) :=
+  map snd (filter (fun r => str_eqb (fst r) k) (krows t)).
+Definition rows_or_pad (k : str) (t : ktable) : list (list cell) :=
+  match rows_of k t with [] => [pad t] | l => l end.
+Definition prod2 (la lb : list (list cell)) : list (list cell) := flat_map (fun ra => map (app ra) lb) la.
+Fixpoint dedup (l : list str) : list str :=
+  match l with
+  | [] => []
+  | k :: r => if mem k r then dedup r else k :: dedup r
+  end.
+Definition join_keys_m (outer : bool) (a b : ktable) : list str :=
+  if outer then dedup (keys a) ++ filter (fun k => negb (mem k (keys a))) (dedup (keys b))
+  else filter (fun k => mem k (keys b)) (dedup (keys a)).
+Definition join2m (outer : bool) (a b : ktable) : ktable :=
+  (kcols a ++ kcols b,
+   flat_map (fun k => map (pair k) (prod2 (rows_or_pad k a) (rows_or_pad k b))) (join_keys_m outer a b)).
+Definition reduce_join_m (outer : bool) (ts : list ktable) : res ktable :=
+  match ts with
+  | [] => Raise TypeError
+  | t :: r => Ok (fold_left (join2m outer) r t)
+  end.
+Definition multimerge_m (F : codefacts) (on_index : bool) (sufs : list str) (outer : bool) (ts : list ktable) : res ktable :=
+  match sufs with
+  | _ :: _ => reduce_join_m outer (map add_suffix (combine ts sufs))
+  | [] =>
+    if on_index then reduce_join_m outer ts
+    else match ts with
+         | [] => Raise TypeError
+         | [t] => Ok t
+         | _ => if merge_on_kw F then reduce_join_m outer ts
+                else Raise TypeError
+         end
+  end.
+(* the n-way product of the per-table row lists `f t` (specification side) *)
+Fixpoint nprod (f : ktable -> list (list cell)) (ts : list ktable) : list (list cell) :=
+  match ts with
+  | [] => [[]]
+  | t :: r => prod2 (f t) (nprod f r)
+  end.
